@@ -8,6 +8,7 @@ import (
 	"strings"
 
 	"verif/internal/harness"
+	"verif/internal/hooks"
 	"verif/internal/lib"
 	"verif/internal/spec"
 )
@@ -75,7 +76,7 @@ func init() {
 		Rule: "case = one key set (2..12 keys from a pool that sorts differently by byte, rune, length and case; one in six cases 13..260 keys incl. generated ones with shared prefixes) x 11 path shapes (wildcard, filter, recursive descent followed by name / wildcard / filter / index / slice, also below an object nested directly in an object, multi-name with *); " +
 			"the object is built 3 times with different insertion orders, each shape evaluated repeatedly on each build (20 / 60 repetitions) interleaved with evaluations on " +
 			"bigger and smaller maps that recycle the pooled key buffers; judged: all repetitions identical and equal to the order computed with sort.Strings / pre-order / " +
-			"written order (SPEC), and for the plain wildcard shape to the directly sorted key list; hooks: adversarial key scrambling before the library's sort, key-buffer poison; " +
+			"written order (SPEC), and for the plain wildcard shape to the directly sorted key list; hooks: adversarial key scrambling before the library's sort, key-buffer poison (half of the cases; a quarter runs without any hook: poison also hides a library that wrongly re-uses a recycled buffer's content); " +
 			"the thorough tier runs everything a second time from a binary built with go1.26 (different map implementation and iteration order); non-trivial = every key set; distinct = distinct key sets",
 		Assumptions: []string{"byte-wise order = Go string comparison = sort.Strings", "Go randomises map iteration per range loop; the scramble hook additionally forces reverse-sorted / rotated / by-length input to the library's sort"},
 		Plan: func(tier string, seed int64) *harness.Plan {
@@ -87,7 +88,19 @@ func init() {
 					hooksOn()
 					c.Cover("toolchain:" + runtime.Version())
 				},
-				Run:      func(c *harness.Ctx, k int) { runC07(c, reps) },
+				Run: func(c *harness.Ctx, k int) {
+					// key-buffer poison makes recycled buffers unusable for the library - also for a library that wrongly RE-uses
+					// their content; so half of the cases run without poison, a quarter without any hook
+					switch k % 4 {
+					case 0, 2:
+						hooks.Configure(hooks.Options{PoisonContainers: true, PoisonKeys: true, ScrambleKeys: 4})
+					case 1:
+						hooks.Configure(hooks.Options{ScrambleKeys: 4})
+					default:
+						hooks.Configure(hooks.Options{})
+					}
+					runC07(c, reps)
+				},
 				Finish:   reportHooks,
 				Required: []string{"keys:2", "keys:12", "keys:large", "shape:wildcard", "shape:recursive-name", "shape:filter", "shape:multi-with-wildcard", "shape:recursive-index", "shape:nested-recursive-index"},
 			}
@@ -154,7 +167,10 @@ func runC07(c *harness.Ctx, reps int) {
 		}
 	}
 	// other maps that recycle the pooled key buffers (bigger and smaller key sets)
-	others := []interface{}{buildOrdered(orderKeyPool[:1]), buildOrdered(orderKeyPool), buildOrdered(orderKeyPool[5:9])}
+	others := []interface{}{buildOrdered(orderKeyPool[:1]), buildOrdered(orderKeyPool), buildOrdered(orderKeyPool[5:9]),
+		// smaller objects made of the case's OWN keys (its greatest key alone; a middle key and the greatest): whatever they leave in a
+		// recycled key buffer consists of keys the next evaluation of the big object also has
+		buildOrdered(sorted[len(sorted)-1:]), buildOrdered([]string{sorted[len(sorted)/2], sorted[len(sorted)-1]})}
 
 	shape := orderShapes[c.K%len(orderShapes)]
 	c.Cover("shape:" + shape.name)
